@@ -6,7 +6,7 @@ Every check follows the pipeline of DESIGN.md section 2.1:
 Verdicts are only ever derived from TLC output (printed "@@{json}" verdict lines, invariant
 violations, statistics); this module just runs TLC and parses what it said.
 """
-import os, sys, json, time, re, subprocess, tempfile, shutil, hashlib, itertools
+import os, sys, json, time, re, subprocess, tempfile, shutil, hashlib, itertools, copy
 
 VERIF = os.path.dirname(os.path.dirname(os.path.abspath(__file__)))
 REPO = os.environ.get('ATHLIB_REPO', '/repo')
@@ -479,6 +479,8 @@ class Report(object):
         cov['new_violation_signatures'] = [v.sig for v in new[:40]]
         if self.notes:
             cov['notes'] = self.notes
+        if SELFTESTS:
+            cov['binding_selftest'] = list(SELFTESTS)
         if self.level == 'model_checking':
             for key in ('states', 'transitions', 'traces_validated_against_impl'):
                 cov.setdefault(key, 0)
@@ -531,7 +533,170 @@ def validate_records(specdir, scratch, module, records, nshards=None, cfg=None, 
         for pr in r.printed:
             pr['index'] = idx[pr['tid'] - 1]
             reports.append(pr)
+    binding_selftest(specdir, scratch, module, records, reports, cfg, env, heap, tag)
     return reports, outs
 
 
 RECORD_CFG = 'SPECIFICATION Spec\nINVARIANT Checked\nCHECK_DEADLOCK FALSE\n'
+
+
+# --------------------------------------------------------------------------- binding self-test (DESIGN section 7)
+# After the real records have been judged, a handful of records that TLC ACCEPTED are corrupted in one recorded field (a
+# point more, a digit changed, an outcome flipped, a label swapped) and judged again: the trace specification must reject
+# them.  A specification that accepts a corrupted observation is not bound to the observations (a vacuous monitor, a
+# field nobody reads) - that is a failure of the machinery, found in the very run it would have spoiled.
+
+def _c_athlon(r):
+    if r.get('k') == 'seg' and not r.get('age') and r.get('segs'):
+        for sg in r['segs'][len(r['segs']) // 2:]:
+            if isinstance(sg[2], int) and 0 < sg[2] < 1500:
+                sg[2] += 1
+                r['re'] = []
+                return r
+    return None
+
+
+def _c_need(r):
+    if r.get('k') == 'need' and r.get('known') and not r.get('none') and isinstance(r.get('t'), int) and r['t'] > 0 \
+            and isinstance(r.get('sAt'), int) and r['sAt'] >= r['t']:
+        r['sAt'] = r['t'] - 1                    # the returned mark scores one point less than asked for
+        return r
+    return None
+
+
+def _c_junior(r):
+    if r.get('k') == 'seg' and not r.get('opt') and r.get('segs'):
+        for sg in r['segs'][len(r['segs']) // 2:]:
+            if isinstance(sg[2], int) and sg[2] > 0:
+                sg[2] += 3
+                return r
+    return None
+
+
+def _c_timetext(r):
+    o = r.get('out')
+    if r.get('k') == 'ru' and isinstance(o, dict) and o.get('ok'):
+        d = o['fp'] if o.get('fp') else o.get('ip')
+        if d:
+            d[-1] = (d[-1] + 1) % 10
+            return r
+    if r.get('k') == 'ph' and isinstance(o, dict) and o.get('t') == 'int':
+        o['w'] += 1
+        return r
+    if r.get('k') == 'ft' and isinstance(o, dict) and o.get('ok') and o.get('fields'):
+        o['fields'][-1] = (o['fields'][-1] + 7) % 60
+        return r
+    return None
+
+
+def _c_agegroups(r):
+    runs = r.get('runs')
+    if runs:
+        run = runs[len(runs) // 2]
+        if isinstance(run[2], str) and not run[2].startswith('exc'):
+            run[2] = 'U11' if run[2] != 'U11' else 'SEN'
+            return r
+    return None
+
+
+def _c_agegrade(r):
+    if r.get('k') == 'ag' and isinstance(r.get('f'), list) and r['f'] != [0, 0, 0]:
+        r['f'] = [0, 0, 0]                      # the factor reads 0.0: not a positive number
+        return r
+    if r.get('k') == 'ip' and r.get('queries'):
+        q = r['queries'][len(r['queries']) // 2]
+        q[1] = [0, 0, 0]
+        return r
+    return None
+
+
+def _c_sortkey(r):
+    if r.get('k') == 'code' and r.get('chk') and isinstance(r.get('key'), dict) and r['key'].get('ok'):
+        r['key']['ok'] = False                  # the sort key raised
+        return r
+    return None
+
+
+def _c_codetext(r):
+    if r.get('k') == 'code' and r.get('chk') and r.get('out') == 'ok' and r.get('n'):
+        r['n'] = list(r['n']) + [32]            # a blank in the normal form
+        return r
+    return None
+
+
+def _c_perfcheck(r):
+    if r.get('out') == 'ok' and r.get('chk') and not r.get('loose'):
+        r['out'] = 'exc'                         # something other than the supplied class was raised
+        return r
+    return None
+
+
+def _c_implements(r):
+    if r.get('k') in ('spec', 'pass') and r.get('out') == 'ok' and r.get('code'):
+        r['code'] = list(r['code']) + [88]
+        return r
+    return None
+
+
+def _c_port(r):
+    py = r.get('py')
+    if isinstance(py, dict) and py.get('t') == 'str' and not r.get('opt'):
+        r['js'] = {'t': 'str', 'v': list(py['v']) + [48]}
+        return r
+    if isinstance(py, dict) and py.get('t') == 'bool' and not r.get('opt'):
+        r['js'] = {'t': 'bool', 'v': not py['v']}
+        return r
+    return None
+
+
+def _c_scoring(r):
+    sg = r.get('segs')
+    if sg:
+        for i in range(len(sg) - 1):
+            a, b = sg[i][2], sg[i + 1][2]
+            if isinstance(a, int) and isinstance(b, int) and a > 0 and b > 0 and a != b:
+                sg[i][2], sg[i + 1][2] = b, a
+                return r
+    return None
+
+
+def _c_eventcodes(r):
+    if 'PAT_TIMED_EVENT' in r.get('acc', []) and 'PAT_FIELD' not in r['acc']:
+        r['acc'] = list(r['acc']) + ['PAT_FIELD']
+        return r
+    return None
+
+
+CORRUPTORS = {'Trace_Athlon': lambda r: _c_athlon(r) or _c_need(r), 'Trace_Junior': _c_junior, 'Trace_TimeText': _c_timetext, 'Trace_AgeGroups': _c_agegroups,
+              'Trace_AgeGrade': _c_agegrade, 'Trace_SortKey': _c_sortkey, 'Trace_CodeText': _c_codetext, 'Trace_PerfCheck': _c_perfcheck,
+              'Trace_Implements': _c_implements, 'Trace_Port': _c_port, 'Trace_Scoring': _c_scoring, 'Trace_EventCodes': _c_eventcodes}
+SELFTESTS = []
+
+
+def binding_selftest(specdir, scratch, module, records, reports, cfg, env, heap, tag):
+    fn = CORRUPTORS.get(module)
+    if fn is None or os.environ.get('VERIF_NO_SELFTEST'):
+        return
+    flagged = {pr['index'] for pr in reports}
+    cand = [i for i in range(len(records)) if i not in flagged]
+    step = max(1, len(cand) // 400)
+    bad = []
+    for i in cand[::step]:
+        c = fn(copy.deepcopy(records[i]))
+        if c is not None:
+            bad.append(c)
+        if len(bad) >= 8:
+            break
+    if not bad:
+        SELFTESTS.append({'trace_spec': module, 'corrupted': 0, 'rejected': 0, 'note': 'no accepted record of a corruptible kind'})
+        return
+    p = scratch.file('%s_%s_selftest.ndjson' % (tag, module))
+    write_ndjson(p, bad)
+    e = {'TRACE_FILE': p}
+    if env:
+        e.update(env)
+    outs = run_tlc_shards(specdir, module, cfg or (module + '.cfg'), [e], workers_each=1, heap=heap, timeout=1200)
+    rejected = len({pr['tid'] for pr in outs[0].printed if pr.get('kind') == 'viol'})
+    SELFTESTS.append({'trace_spec': module, 'corrupted': len(bad), 'rejected': rejected})
+    if rejected == 0:
+        raise MachineryError('binding self-test: %s accepted all %d corrupted records' % (module, len(bad)))
